@@ -55,7 +55,7 @@ def run(seed, tier, replay=None):
     r = mix.merge(run_p(seed, tier, replay), mix.check([mix.mon_exit], seed, tier))
     # runs with timed-out tests (incl. tests that exit 0 when told to terminate), cancelled runs, runs ended by a signal: exit status
     r = mix.merge(r, tim.run_family("slow", seed, tier, 4, 30, kinds=("exit", "result")))
-    r = mix.merge(r, tim.run_family("cancel", seed, tier, 6, 30, kinds=("exit",)))
+    r = mix.merge(r, tim.run_family("cancel", seed, tier, 7, 35, kinds=("exit",)))
     return mix.merge(r, tim.run_family("sig", seed, tier, 4, 30, kinds=("exit",)))
 
 KNOWN_MATCHERS = {}
